@@ -481,7 +481,12 @@ class Background2D:
         # a box is excluded if it has fewer than the minimum number of
         # required unmasked pixels (i.e., *more than* exclude_percentile
         # percent masked); completely masked boxes are always excluded
-        box_mask = ((ngood < self._good_npixels_threshold) | (ngood == 0))
+        # (compare the masked percentage directly; the threshold
+        # (1 - p/100) * npixels is subject to rounding, e.g., p=70)
+        nmasked = self._box_npixels - ngood
+        box_mask = ((nmasked * 100.0
+                     > self.exclude_percentile * self._box_npixels)
+                    | (ngood == 0))
 
         if np.ndim(bkg) == 0:
             if box_mask:  # single corner box
